@@ -18,7 +18,7 @@ pub const SPEC: PropSpec = PropSpec {
     level: "exploration",
     rule: "Writer cases = (event-kind sequence with Eof only last, indent character in {space, tab, 'x'}, indent width 0..=9). Each sequence is written through Writer::new and Writer::new_with_indent with the sink length sampled before every event; for every event the indented piece must be [newline + k indent characters] + plain piece, the optional prefix being present only when the event is markup other than Text/CDATA, is not the first event and does not follow Text/CDATA; k must be a multiple of the width and at most width x (number of Start events written so far); no panic; write_event_async must give the same bytes; for space/tab both outputs are read back and, after dropping whitespace-only texts between markup, must give the same events with byte-identical Text/CDATA payloads. Exhaustive: all kind sequences up to length 5/6 over the ten kinds (Eof last only); random: sequences up to length 400 with nesting pushed beyond 128 and 1024 bytes of indentation and more Ends than Starts. Serde cases = (value of the C06 family, indent char/width): the token stream of the indented serialization minus whitespace-only texts between markup must equal the plain one's, and both must deserialize to equal values. Non-trivial = the sequence has at least one Text/CDATA next to markup, or depth x width > 128.",
     assumptions: &["payloads of generated Text/CDATA events contain no markup characters, so that reading the output back is meaningful", "the reader is used as a tool for the read-back comparison (its correctness is C01's business)"],
-    required: &["pairs_seen_all90", "max.indent_bytes", "saturations", "breaks_inserted", "breaks_suppressed_after_text", "async_compared", "readback_compared", "serde.values", "serde.mixed_content_values"],
+    required: &["pairs_seen_all90", "max.indent_bytes", "saturations", "breaks_inserted", "breaks_suppressed_after_text", "async_compared", "readback_compared", "write_indent_calls_checked", "serde.values", "serde.mixed_content_values", "serde.write_serializable_nested_compared"],
     run,
     replay,
     thorough_layers: &[],
@@ -44,8 +44,10 @@ pub struct Local {
     suppressed: u64,
     async_cmp: u64,
     readback: u64,
+    pub manual_indents: u64,
     pub serde_values: u64,
     pub serde_mixed: u64,
+    pub serde_ws: u64,
 }
 impl Default for Local {
     fn default() -> Self {
@@ -57,8 +59,10 @@ impl Default for Local {
             suppressed: 0,
             async_cmp: 0,
             readback: 0,
+            manual_indents: 0,
             serde_values: 0,
             serde_mixed: 0,
+            serde_ws: 0,
         }
     }
 }
@@ -184,6 +188,38 @@ pub fn check_writer(events: &[Event<'static>], c: u8, n: usize, loc: &mut Local)
             _ => {}
         }
         prev = Some(k);
+    }
+    // explicit write_indent() / write_indent_async() in the middle of the sequence: nothing on a
+    // plain writer, a line break plus whole indent levels on an indenting one, same bytes async
+    if !events.is_empty() {
+        let at = events.len() / 2;
+        let mut wp = Writer::new(Vec::new());
+        let mut wi = Writer::new_with_indent(Vec::new(), c, n);
+        let mut wa = Writer::new_with_indent(Vec::new(), c, n);
+        let mut st = 0usize;
+        for e in &events[..at] {
+            wp.write_event(e.borrow()).map_err(|e| format!("writer error: {}", e))?;
+            wi.write_event(e.borrow()).map_err(|e| format!("writer error: {}", e))?;
+            block_on(wa.write_event_async(e.borrow()), 1000)?.0.map_err(|e| format!("async writer error: {}", e))?;
+            if kind_of(e) == Kind::Start {
+                st += 1;
+            }
+        }
+        let (lp, li) = (wp.get_ref().len(), wi.get_ref().len());
+        wp.write_indent().map_err(|e| format!("write_indent error: {}", e))?;
+        wi.write_indent().map_err(|e| format!("write_indent error: {}", e))?;
+        block_on(wa.write_indent_async(), 1000)?.0.map_err(|e| format!("write_indent_async error: {}", e))?;
+        if wp.get_ref().len() != lp {
+            return Err(format!("write_indent() on a writer without indentation wrote {:?}", show(&wp.get_ref()[lp..])));
+        }
+        let added = &wi.get_ref()[li..];
+        if added.first() != Some(&b'\n') || added[1..].iter().any(|b| *b != c) || (n == 0 && added.len() != 1) || (n > 0 && (added.len() - 1) % n != 0) || added.len() - 1 > n * st {
+            return Err(format!("write_indent() after {} events ({} start tags, width {}) wrote {:?}", at, st, n, show(added)));
+        }
+        if wa.get_ref() != wi.get_ref() {
+            return Err(format!("write_indent_async produced {:?} but write_indent produced {:?}", show(wa.get_ref()), show(wi.get_ref())));
+        }
+        loc.manual_indents += 1;
     }
     // async writer: same bytes
     {
@@ -339,8 +375,10 @@ fn flush(ctx: &mut Ctx, loc: &Local) {
     ctx.add("breaks_suppressed_after_text", loc.suppressed);
     ctx.add("async_compared", loc.async_cmp);
     ctx.add("readback_compared", loc.readback);
+    ctx.add("write_indent_calls_checked", loc.manual_indents);
     ctx.add("serde.values", loc.serde_values);
     ctx.add("serde.mixed_content_values", loc.serde_mixed);
+    ctx.add("serde.write_serializable_nested_compared", loc.serde_ws);
 }
 
 fn replay(case: &Value, ctx: &mut Ctx) -> Option<String> {
